@@ -186,7 +186,7 @@ def step (d : DSt) (w : List String) : DSt × String :=
       else if kind == "raw" then (if n = 1 then mk .raw 1 [] else (d, "bad-op"))
       else (d, "bad-op")
   | ["r", "take", hs, os] =>
-    match idx hs 3, idx os m.objs.length with
+    match idx hs 3, idx os d.named with
     | some h, some o =>
       if !handleEmpty m h then (d, "bad-op") else
       runOp d m (.take h o) (fmtRet (m.take h o).2)
@@ -222,7 +222,7 @@ def step (d : DSt) (w : List String) : DSt × String :=
     let s' : Refs.SSt := { d.s with hnd := d.s.hnd ++ [none] }
     finish { d with s := s' } m' true "0" [{ ok := true, st := s' }]
   | ["r", "lo", "set", os] =>
-    match idx os m.objs.length with
+    match idx os d.named with
     | some o =>
       if m.hnd.length ≠ 4 ∨ (m.obj o).kind != .hmeta then (d, "bad-op") else
       -- the held target is replaced: retain the new one, release the old one
@@ -246,7 +246,7 @@ def step (d : DSt) (w : List String) : DSt × String :=
         let srcv : Option (Option Nat × Option Bool) :=
           if op == "assigno" then
             if src == "null" then some (none, none)
-            else match idx src m.objs.length with
+            else match idx src d.named with
               | some o => some (some o, some (m.isMetaObj o))
               | none => none
           else match idx src 3 with
@@ -271,7 +271,7 @@ def step (d : DSt) (w : List String) : DSt × String :=
           | some true => runOp d m (.assignMeta h so) (fmtRet (m.assignMeta h so).2)
           | some false => runOp d m (.assignArr h so) (fmtRet (m.assignArr h so).2)
     else if op == "ext" then
-      match idx hs m.objs.length with
+      match idx hs d.named with
       | none => (d, "bad-op")
       | some o =>
         let k := (m.obj o).kind
